@@ -83,6 +83,7 @@ def main():
         "ROUND3": ["| seed | change | result of `./check` (quick tier) |", "|---|---|---|"] + seeds("-3"),
         "ROUND4": ["| seed | change | result of `./check` (quick tier) |", "|---|---|---|"] + seeds("-4"),
         "ROUND5": ["| seed | change | result of `./check` (quick tier) |", "|---|---|---|"] + seeds("-5"),
+        "ROUND6": ["| seed | change | result of `./check` (quick tier) |", "|---|---|---|"] + seeds("-6"),
         "HARMLESS2": ["| patch | what it rewrites | first run | final |", "|---|---|---|---|"] + harmless("harmless2"),
         "HARMLESS": ["| patch | what it rewrites | first run | after the corrections of Appendix A.9 |", "|---|---|---|---|"] + harmless(),
     }
